@@ -339,8 +339,17 @@ def run_transport(framing, name, data, ka, prior='none'):
     good = canonical(framing, spec)
     state = dict(prior=prior != 'none')
 
+    sent_now = []
+
     def plan(k, req, now):
         d = good if state['prior'] else data
+        if state['prior'] and prior.startswith('typed+stray-head@'):
+            # ... and while the object is idle afterwards, the head of an answer nobody asked for arrives (its announced
+            # length is more than what arrives)
+            f2 = canonical(framing, spec, fill=0x11)
+            return [(D0, ('data', (req[:2] + good[2:]) if framing == 'tcp' else good)), (0.2, ('data', f2[:int(prior.split('@')[1])]))]
+        if not state['prior']:
+            sent_now.append(d)
         if isinstance(d, tuple):
             first = req[:2] + d[0][2:] if framing == 'tcp' else d[0]
             return [(D0, ('data', first)), (0.3, ('data', d[1]))]
@@ -362,6 +371,8 @@ def run_transport(framing, name, data, ka, prior='none'):
             raw = typed(prior == 'raw-other-bytes').request_bytes() if hasattr(typed(), 'request_bytes') else typed().request
             pc = gp.ProtocolCommand(raw, lambda x: True)
         loop.run(_exec(pc, p))
+        if prior.startswith('typed+stray-head@'):
+            loop.settle(0.5)
         state['prior'] = False
     cmd = typed()
     st, res = loop.run(_exec(cmd, p))
@@ -372,6 +383,14 @@ def run_transport(framing, name, data, ka, prior='none'):
         desc = dict(kind='aa55', rtype=b'\x01\x86') if framing == 'aa55' else dict(kind='read', count=3)
         if wire.classify_response(framing, desc, res[1]) != 'wellformed':
             vio.append(('delivered-malformed', f'{name}: execute() returned {res[1].hex()}'))
+        if prior.startswith('typed+stray-head@') and sent_now:
+            # the byte string that arrived in answer to THIS request is what was accepted (a truncated or garbage string is
+            # not made acceptable by bytes that were lying around)
+            d = sent_now[-1]
+            whole = b''.join(d) if isinstance(d, tuple) else d
+            body = res[1][2:] if framing == 'tcp' else res[1]
+            if body != (whole[2:] if framing == 'tcp' else whole):
+                vio.append(('accepted-string-is-what-arrived', f'{name}: the inverter answered {whole.hex()}, execute() returned {res[1].hex()}'))
     # (whether a split frame IS delivered is C07's subject; here only: what is delivered is a well-formed frame)
     return vio, res
 
@@ -496,6 +515,28 @@ def run(tier, seed, rep):
                     for clause, cause in run_exception_answer(framing, kind, code, ka):
                         rep.add(f'{clause}/{framing}/{kind}', clause, dict(part='X', framing=framing, kind=kind, code=code, ka=ka), dict(cause=cause))
     nt = 0
+    # a stray head arrived while idle; the request is then answered by exactly the number of bytes that head was missing
+    for framing in ('rtu', 'tcp', 'aa55'):
+        spec_ = ('aa55', '010600', '0186', 6) if framing == 'aa55' else ('read', 0x891C, 3)
+        f2, f3 = canonical(framing, spec_, fill=0x11), canonical(framing, spec_, fill=0x22)
+        h0 = dict(rtu=5, tcp=9, aa55=9)[framing]
+        for k0 in sorted({h0, h0 + 1, h0 + 3, len(f2) - 3}):
+            glued = f2[:k0] + f3[k0:]
+            if framing == 'rtu':
+                glued = glued[:-2] + wire.crc_bytes(glued[2:-2])
+            elif framing == 'aa55':
+                glued = glued[:-2] + wire.sum16(glued[:-2]).to_bytes(2, 'big')
+            cases_ = [('tail-of-that-answer', f2[k0:]), ('tail-of-another-answer', f3[k0:]), ('tail-with-fitting-checksum', glued[k0:]),
+                      ('garbage-of-that-length', bytes((37 * i + 11) & 0xFF for i in range(len(f2) - k0))), ('ff-of-that-length', b'\xff' * (len(f2) - k0))]
+            for name, data in cases_:
+                for ka in (False, True):
+                    prior = f'typed+stray-head@{k0}'
+                    vio, res = run_transport(framing, name, data, ka, prior)
+                    nt += 1
+                    for clause, cause in vio:
+                        rep.add(f'{clause}/{framing}/{name}/after:typed+stray-head', clause,
+                                dict(part='K', framing=framing, name=name, ka=ka, prior=prior, data=data.hex()),
+                                dict(cause=cause, earlier_request=prior))
     for framing in ('rtu', 'tcp', 'aa55'):
         for name, data in transport_cases(framing):
             for ka in (False, True):
